@@ -25,6 +25,7 @@ type cParams struct {
 	Replay bool      `json:"replay"` // server replays its notification log from the id given in Ready
 	Preload int      `json:"preload"` // notifications already in the server's log when the client connects
 	ExtraDepth int   `json:"extra_depth,omitempty"` // explore this scenario deeper than the check's base depth
+	Prefix []string  `json:"prefix,omitempty"` // events applied before the explored history (a non-initial start state)
 }
 
 type noteRec struct {
@@ -283,7 +284,7 @@ func runCHist(p cParams, hist []string, final bool) *cRun {
 	w.preload(p.Preload)
 	w.Start()
 	w.Tick(10 * time.Millisecond)
-	for _, ev := range hist {
+	for _, ev := range append(append([]string{}, p.Prefix...), hist...) {
 		if len(w.viol) > 0 || w.livelock || len(w.S.Panics()) > 0 {
 			break
 		}
@@ -397,6 +398,20 @@ func (w *CWorld) oracleCalls() {
 		if r != nil && r.Answered != "" && r.AnsAt-base >= timeout-int64(time.Second) {
 			continue // answered around or after the time-out: either outcome is legitimate
 		}
+		if r != nil && r.At > c.End && c.Err != nil && cause == client.ErrTimeout {
+			continue // the call gave up (message time-out) before its queued request was written at all
+		}
+		// Responses carry no request id, only the key. When the server also answered another request of
+		// the same kind and key while this call was pending (a request of an earlier call that had given
+		// up but whose message was still written), either answer legitimately completes this call.
+		if sib := w.siblingAnswered(c, r); sib != nil && r != nil && r.Answered != "" && r.Answered != sib.Answered {
+			if c.Err == nil && c.Result != expectedResult(c) {
+				w.fail("C16", "response-reaches-its-call", "call returned another request's response ("+c.Kind+")", fmt.Sprintf("%s:%s returned %q, want %q", c.Kind, c.Key, c.Result, expectedResult(c)))
+			} else if re, ok := cause.(client.RejectError); ok && re.Description != "no:"+r.Kind+":"+r.Key {
+				w.fail("C16", "reject-surfaces", "reject error carries another request's code/message ("+c.Kind+")", fmt.Sprintf("%s:%s got reject %q, want %q", c.Kind, c.Key, re.Description, "no:"+r.Kind+":"+r.Key))
+			}
+			continue
+		}
 		switch {
 		case r != nil && r.Answered == "proper" && r.AnsAt-base < timeout && !w.droppedBetween(r.At, r.AnsAt):
 			want := expectedResult(c)
@@ -447,6 +462,15 @@ func (w *CWorld) oracleCalls() {
 			}
 		}
 	}
+}
+
+func (w *CWorld) siblingAnswered(c *cCall, r *sReq) *sReq {
+	for _, x := range w.reqs {
+		if x != r && x.Kind == c.Kind && x.Key == c.serverKey() && x.Answered != "" && x.AnsAt >= c.Start && x.AnsAt <= c.End {
+			return x
+		}
+	}
+	return nil
 }
 
 func (w *CWorld) droppedBetween(a, b int64) bool {
